@@ -10,6 +10,10 @@
 #include <amgcl/coarsening/smoothed_aggr_emin.hpp>
 #include <amgcl/relaxation/spai0.hpp>
 #include <deque>
+#include <complex>
+#include <amgcl/value_type/complex.hpp>
+#include <amgcl/value_type/static_matrix.hpp>
+#include <amgcl/adapter/block_matrix.hpp>
 #include "harness_main.hpp"
 
 const char *CHECK_ID = "C03";
@@ -83,6 +87,69 @@ template <class P> static void set_coarsening_params(P &c, const Plan &p, float 
 template <class P> static auto get_over_impl(const P &c, int) -> decltype(c.over_interp, float()) { return c.over_interp; }
 template <class P> static float get_over_impl(const P &, long) { return 1.0f; }
 template <class P> static float get_over_interp(const P &c) { return get_over_impl(c, 0); }
+
+
+template <class V> static std::shared_ptr<amgcl::backend::crs<V> > make_valued(const gen::Csr &G, uint64_t seed);
+template <> std::shared_ptr<amgcl::backend::crs<std::complex<double> > > make_valued<std::complex<double> >(const gen::Csr &G, uint64_t seed) {
+    auto M = std::make_shared<amgcl::backend::crs<std::complex<double> > >();
+    M->set_size(G.n, G.n, false); for (long i = 0; i <= G.n; ++i) M->ptr[i] = G.ptr[i]; M->set_nonzeros(G.nnz());
+    for (long i = 0; i < G.n; ++i) for (ptrdiff_t j = G.ptr[i]; j < G.ptr[i+1]; ++j) { M->col[j] = G.col[j]; uint64_t h = sim::hash_combine((uint64_t)i * 1315423911u + (uint64_t)G.col[j], seed); double im = G.col[j] == i ? 0.0 : G.val[j] * ((double)((long)(h % 9) - 4) / 8.0); M->val[j] = std::complex<double>(G.val[j], im); }
+    return M; }
+template <> std::shared_ptr<amgcl::backend::crs<amgcl::static_matrix<double,2,2> > > make_valued<amgcl::static_matrix<double,2,2> >(const gen::Csr &G, uint64_t) {
+    typedef amgcl::static_matrix<double,2,2> BV;
+    if (G.n % 2 || G.n < 4) return std::shared_ptr<amgcl::backend::crs<BV> >();
+    gen::Csr Gc = G; auto As = to_crs(Gc); amgcl::backend::sort_rows(*As);
+    return std::make_shared<amgcl::backend::crs<BV> >(amgcl::adapter::block_matrix<BV>(*As)); }
+
+// ---- complex / block valued hierarchies: R is the ADJOINT of P, A_c = R*A*P in the value type's own algebra -----------------------
+typedef std::complex<long double> CL;
+template <class V> struct vtraits;
+template <> struct vtraits<std::complex<double> > { enum { B = 1 }; static CL get(const std::complex<double> &v, int, int) { return CL(v.real(), v.imag()); } static const char* name() { return "complex"; } };
+template <> struct vtraits<amgcl::static_matrix<double,2,2> > { enum { B = 2 }; static CL get(const amgcl::static_matrix<double,2,2> &v, int a, int b) { return CL(v(a, b), 0); } static const char* name() { return "block2x2"; } };
+struct CDense { long n, m; std::vector<CL> a; CDense(long n = 0, long m = 0) : n(n), m(m), a((size_t)n * m, CL(0, 0)) {} CL& operator()(long i, long j) { return a[(size_t)i * m + j]; } CL operator()(long i, long j) const { return a[(size_t)i * m + j]; } };
+template <class V> static CDense vdense(const amgcl::backend::crs<V> &M, bool absolute = false) {
+    const int B = vtraits<V>::B; CDense D((long)M.nrows * B, (long)M.ncols * B);
+    for (size_t i = 0; i < M.nrows; ++i) for (ptrdiff_t j = M.ptr[i]; j < M.ptr[i+1]; ++j) for (int a = 0; a < B; ++a) for (int b = 0; b < B; ++b) { CL v = vtraits<V>::get(M.val[j], a, b); D(i * B + a, M.col[j] * B + b) += absolute ? CL(std::abs(v), 0) : v; }
+    return D; }
+static CDense cmul(const CDense &A, const CDense &B) { CDense C(A.n, B.m); for (long i = 0; i < A.n; ++i) for (long k = 0; k < A.m; ++k) { CL a = A(i, k); if (a == CL(0, 0)) continue; for (long j = 0; j < B.m; ++j) C(i, j) += a * B(k, j); } return C; }
+
+template <class V, template <class> class C>
+static void run_valued(const Plan &p, const gen::Csr &A0, Result &res, bool adjoint_clause) {
+    typedef amgcl::backend::builtin<V> VB; typedef amgcl::backend::crs<V> VM;
+    typedef amgcl::amg<VB, recorder<C>::template type, amgcl::relaxation::spai0> AMG;
+    long coarsening = p.get("coarsening");
+    auto sig = [&](const char *oracle, const char *clause, const std::string &detail) { Violation v; v.oracle = oracle; v.add("component", coarsening_names[coarsening]); v.add("clause", clause); v.add("nt", p.get("nt") > 16 ? "rmerge" : "saad"); v.add("values", vtraits<V>::name()); v.detail = detail; return v; };
+    const int B = vtraits<V>::B;
+    std::shared_ptr<VM> Av = make_valued<V>(A0, (uint64_t)p.get("mseed"));
+    if (!Av) return;
+    typename AMG::params prm;
+    prm.coarse_enough = (unsigned)std::max<long>(1, p.get("coarse_enough") / B); prm.max_levels = (unsigned)p.get("max_levels"); prm.direct_coarse = p.get("direct_coarse") != 0; prm.allow_rebuild = true;
+    set_coarsening_params(prm.coarsening, p, (float)p.get("eps16") / 16.0f);
+    level_log().clear();
+    std::unique_ptr<AMG> amg;
+    try { amg.reset(new AMG(*Av, prm)); } catch (const std::exception &) { res.counts["construction_threw"]++; level_log().clear(); return; }
+    std::vector<LevelLog> built = level_log(); level_log().clear();
+    float over = get_over_interp(prm.coarsening); const long double scale = (long double)(double)(1.0f / over);
+    auto check_levels = [&](const std::vector<LevelLog> &lv, const char *when) {
+        for (size_t l = 0; l < lv.size(); ++l) {
+            if (!lv[l].Ac) continue;
+            const VM &Al = *std::static_pointer_cast<VM>(lv[l].A), &P = *std::static_pointer_cast<VM>(lv[l].P), &R = *std::static_pointer_cast<VM>(lv[l].R), &Ac = *std::static_pointer_cast<VM>(lv[l].Ac);
+            if ((long)Al.nrows * B > 140) continue;
+            CDense dP = vdense(P), dR = vdense(R), dA = vdense(Al), dC = vdense(Ac);
+            if (adjoint_clause) { bool ok = dR.n == dP.m && dR.m == dP.n; for (long i = 0; ok && i < dP.n; ++i) for (long j = 0; j < dP.m; ++j) if (dR(j, i) != std::conj(dP(i, j))) { ok = false; res.fail(sig("restriction-is-adjoint", when, fmt("level %zu: R(%ld,%ld) is not the adjoint of P(%ld,%ld)", l, j, i, i, j))); break; } }
+            CDense RAP = cmul(cmul(dR, dA), dP), Bd = cmul(cmul(vdense(R, true), vdense(Al, true)), vdense(P, true));
+            for (long i = 0; i < dC.n; ++i) for (long j = 0; j < dC.m; ++j) { CL want = RAP(i, j) * scale; long double tol = 64 * 1.2e-16L * Bd(i, j).real() * scale + 1e-300L; if (std::abs(dC(i, j) - want) > tol) { res.fail(sig("galerkin", when, fmt("level %zu: A_c(%ld,%ld) = %.17g%+.17gi, R*A*P/%g = %.17Lg%+.17Lgi", l, i, j, (double)dC(i, j).real(), (double)dC(i, j).imag(), (double)over, want.real(), want.imag()))); i = dC.n; break; } }
+            res.counts["valued_levels_checked"]++;
+        } };
+    check_levels(built, "construction");
+    // one rebuild with a changed matrix of the same pattern
+    std::shared_ptr<VM> A2 = make_valued<V>(variant(A0, 0, p.get("vseed") % 1000), (uint64_t)p.get("mseed") + 1);
+    level_log().clear();
+    try { amg->rebuild(*A2); check_levels(level_log(), "rebuild"); res.counts["rebuilds"]++; } catch (const std::exception &) { res.faults["rebuild_threw"]++; }
+    level_log().clear();
+    res.nontrivial = built.size() >= 1 && built[0].Ac;
+    res.counts[std::string("valued_") + vtraits<V>::name()]++;
+}
 
 template <template <class> class C>
 static void run_typed(const Plan &p, const gen::Csr &A0, Result &res) {
@@ -222,6 +289,7 @@ Plan generate(uint64_t seed, uint64_t run, bool thorough) {
     p.set("npre", r.range(1, 2), 1); p.set("ncycle", r.range(1, 2), 1);
     p.set("eps16", r.range(0, 8), 0); p.set("over", r.range(0, 3), 0); p.set("trunc", r.range(0, 1), 0); p.set("sa_relax", r.range(0, 2), 0);
     p.set("block_size", r.chance(0.15) ? 2 : 1, 1);
+    p.set("valued", r.chance(0.2) ? r.range(1, 2) : 0, 0);      // 1: complex values, 2: 2x2 block values (aggregation-type coarsenings)
     static const long nts[] = { 1, 1, 2, 5, 16, 17, 24, 32 };
     p.set("nt", nts[r.below(8)], 1);
     long nops = r.range(1, thorough ? 8 : 5);
@@ -241,7 +309,20 @@ Result execute(const Plan &p) {
     gen::Csr A = gen::make_matrix((int)p.get("family"), p.get("n"), (uint64_t)p.get("mseed"), (int)p.get("contrast"), (int)p.get("aniso"), (int)p.get("integer"));
     if (p.get("block_size") > 1 && A.n % p.get("block_size") != 0) { Plan q = p; q.set("block_size", 1, 1); return execute(q); }
     int nt = (int)p.get("nt");
+    long valued = p.get("valued", 0); if (p.get("coarsening") == 0) valued = 0;      // Ruge-Stuben is real-valued only
     sim::RunStatus st = world(nt, p.sched, [&]() {
+        if (valued) {
+            typedef std::complex<double> CX; typedef amgcl::static_matrix<double,2,2> BV;
+            switch (p.get("coarsening") * 10 + valued) {
+                case 11: run_valued<CX, amgcl::coarsening::aggregation>(p, A, res, true); break;
+                case 12: run_valued<BV, amgcl::coarsening::aggregation>(p, A, res, true); break;
+                case 21: run_valued<CX, amgcl::coarsening::smoothed_aggregation>(p, A, res, true); break;
+                case 22: run_valued<BV, amgcl::coarsening::smoothed_aggregation>(p, A, res, true); break;
+                case 31: run_valued<CX, amgcl::coarsening::smoothed_aggr_emin>(p, A, res, false); break;
+                default: run_valued<BV, amgcl::coarsening::smoothed_aggr_emin>(p, A, res, false); break;
+            }
+            return;
+        }
         switch (p.get("coarsening")) {
             case 0: run_typed<amgcl::coarsening::ruge_stuben>(p, A, res); break;
             case 1: run_typed<amgcl::coarsening::aggregation>(p, A, res); break;
